@@ -63,6 +63,16 @@ def routes(ref, Sid, t, d, s, natural):
                 p = Sid(s).path()
                 return Sid(path=p) if p else None
             yield "path", via_path
+        others = [t2 for t2 in ref.all_types(s) if t2 != t]
+        if others:
+            # the string also fits another type: a Sid *object* of that type went through the factory first (cold factory cache),
+            # then the Sid is built from its uri; '/' re-resolves the plain string and must still give the natural type
+            def after_other():
+                from spil.sid.core.sid_factory import sid_to_sid
+                sid_to_sid.cache_clear()
+                Sid(Sid(others[0] + ":" + s))
+                return Sid(uri)
+            yield "uri-after-object-of-other-type", after_other
 
 
 def check_case(ref, case):
